@@ -84,7 +84,18 @@ type c18Case struct {
 	Ops  []c18Op `json:"ops"`
 }
 
-var c18Addrs = []string{"192.0.2.1", "192.0.2.2", "2001:db8::3", "192.0.2.4", "2001:db8::5", "192.0.2.6"}
+// The phantoms, identified by the address STRING the caller passes (the code keys its caches on the
+// string as given). Indexes 0-5 are canonical literals (kept first: stored replays refer to them).
+// From c18OddFrom on: spellings that are not canonical IP literals or not literals at all — zoned
+// IPv6 (two zones = two hosts), host names, a zero-padded and a space-prefixed IPv4, upper-case and
+// v4-mapped IPv6. Every entry denotes a host of its own (no two entries are spellings of one IP, so
+// an implementation that canonicalises equal addresses onto one entry is not judged here), with
+// independently scripted liveness.
+var c18Addrs = []string{"192.0.2.1", "192.0.2.2", "2001:db8::3", "192.0.2.4", "2001:db8::5", "192.0.2.6",
+	"fe80::1%eth0", "fe80::1%eth1", "phantom-a.example.test", "phantom-b.example.test", "010.0.0.1", " 10.0.0.2",
+	"2001:DB8::AB", "::ffff:192.0.2.77"}
+
+const c18OddFrom = 6
 
 // The error values phantomIsLive really produces: (true, ErrLiveHost), (true, <dial error>),
 // (false, NotLive), (false, fmt.Errorf("%w %v", NotLive, timeout)).
@@ -251,6 +262,7 @@ type c18Run struct {
 	vnow     int64
 	meas     map[int][]c18Meas // completed measurements per address, in completion order
 	weak     map[int]bool      // address had two overlapping probes: "the last measurement" is ambiguous
+	oddSeen  map[int]bool      // evidence: distinct queried addresses that are not IP literals
 	stack    []*c18Frame
 	st       map[string]bool
 	key, msg string
@@ -372,6 +384,15 @@ func (r *c18Run) lens() [2]int {
 func (r *c18Run) query(o *c18Op, depth int) {
 	s := r.sys
 	addr := c18Addrs[o.Addr]
+	if o.Addr >= c18OddFrom {
+		r.st["addr:non-canonical-spelling"] = true
+		if net.ParseIP(addr) == nil {
+			r.oddSeen[o.Addr] = true
+			if len(r.oddSeen) > 1 {
+				r.st["addr:two-non-literal-phantoms"] = true
+			}
+		}
+	}
 	var pre [2]c18Obs
 	for ci := 0; ci < 2; ci++ {
 		pre[ci] = c18Observe(s.cacheOf(ci), addr)
@@ -510,7 +531,7 @@ func (r *c18Run) query(o *c18Op, depth int) {
 
 // c18RunCase applies the history to a fresh tester and to the model.
 func c18RunCase(c c18Case) (key, msg string, st map[string]bool) {
-	r := &c18Run{meas: map[int][]c18Meas{}, weak: map[int]bool{}, st: map[string]bool{}}
+	r := &c18Run{meas: map[int][]c18Meas{}, weak: map[int]bool{}, oddSeen: map[int]bool{}, st: map[string]bool{}}
 	s, err := c18Build(c.Conf, r.probe)
 	if err != nil {
 		return "harness", err.Error(), r.st
